@@ -32,4 +32,13 @@ PROPS = {
         ],
         'crosscheck_functions': [],
     },
+    'C11': {
+        'level': 'proof',
+        'functions': [
+            'pyx12.x12file.X12Writer.Write',
+            'pyx12.x12file.X12Writer.Close',
+        ],
+        'assumed_contracts': ['pyx12.x12file.X12Writer._get_trailer_segment'],
+        'crosscheck_functions': [],
+    },
 }
